@@ -5,6 +5,7 @@ linearisation order) and mirrors the *documented* semantics; where the implement
 free (which eligible blocked worker is served) it resolves by observation.
 No gevent, no heaps in here."""
 
+import json
 import hashlib
 
 from .kernel import Violation
@@ -82,6 +83,7 @@ class QsModel:
         self.finished_count = {}
         self.restarted = False
         self.inflight_possible = set()
+        self._lot_of = {}  # job -> [(job, ended up queued?)...]: what one disconnect gave back, in push order
         self.event_no = 0
         self.expect = {}  # conn -> (event_no of exec, kind, value)
         self.pending_immediate = None  # (conn, JobM) a pull that must be answered at once
@@ -470,6 +472,18 @@ class QsModel:
                        got=j.tag(), expected=expected.tag())
         if not immediate:
             self.probe("delivery-by-hand-off")
+            lot = self._lot_of.get(j)
+            if lot:
+                # a disconnect gives all jobs of that connection back in one step: the blocked
+                # worker must not get one of them when a better one of the same lot, pushed
+                # back after it, found no taker and stayed queued
+                self.probe("requeue-lot-handoff")
+                pos = [k for k, (x, q) in enumerate(lot) if x is j and q is False]
+                for x, q in (lot[pos[-1] + 1:] if pos else []):
+                    if q is True and x is not j and x.key < j.key and (not channels or x.channel in channels):
+                        self._fail("R-order", f"{conn} (pulling {list(channels or [])}) was handed {j.tag()} (prio {j.priority}) when "
+                                   f"its holder went away, while {x.tag()} (prio {x.priority}), given back by the same "
+                                   f"disconnect, comes first and was left in the queue", got=j.tag(), expected=x.tag())
             # a hand-off must not bypass a candidate that was already queued: such a job is
             # unheld, eligible for this puller and was not pushed in this quantum
             better = [x for x in self._eligible(channels or [])
@@ -495,10 +509,12 @@ class QsModel:
         if self.whitebox and res.get("numjobs") != len(self.jobs):
             self._fail("R-idem", f"getstats.numjobs = {res.get('numjobs')}, model knows {len(self.jobs)} jobs")
         c2s = res.get("channel2stat") or {}
-        chans = set(c2s) | set(self.finished_count)
+        # (object keys are strings on the wire, whatever the channel name was)
+        fin = {ch if isinstance(ch, str) else json.dumps(ch): v for ch, v in self.finished_count.items()}
+        chans = set(c2s) | set(fin)
         for ch in chans:
             got = c2s.get(ch, {})
-            exp = self.finished_count.get(ch, {})
+            exp = fin.get(ch, {})
             for kind in ("success", "error", "timeout", "killed"):
                 if got.get(kind, 0) != exp.get(kind, 0):
                     self._fail("R-count", f"channel {ch!r}: counter {kind} = {got.get(kind, 0)}, "
@@ -524,6 +540,18 @@ class QsModel:
         if n:
             self.probe("disconnect-while-holding")
         # jobs held by this conn that belong to replaced incarnations are done: nothing to do
+
+    def on_shutdown_done(self, conn, pushes):
+        """`pushes`: [(jobid, serial, queued)] - what the connection's teardown pushed back, in order,
+        and whether each job ended up in its channel queue (False: handed to a blocked puller)."""
+        lot = []
+        for jid, serial, queued in pushes:
+            j = self.jobs.get(jid)
+            if j is not None and j.serial == serial:
+                lot.append((j, queued))
+        if len(lot) >= 2:
+            for j, _q in lot:
+                self._lot_of[j] = lot
 
     def on_tick(self, kind, now):
         self._event()
@@ -631,6 +659,7 @@ class QsModel:
             if all(j.state == "d" for j in js):
                 self._fail("R-wait", f"{conn} still waits although {[j.tag() for j in js]} are all finished",
                            conn=conn)
+        self._lot_of = {}
         self.inflight_possible = set()
         if self.whitebox and self.sim is not None:
             try:
